@@ -7,7 +7,8 @@
    Hangs (goroutine / pipe deadlocks) live in the runtime and cannot be
    exhibited by the model: every run of the check has a timeout instead. *)
 From Coq Require Import String.
-From GS Require Import GoSem Text Options Protocol ProtocolProofs.
+From GS Require Import GoSem Text Options Protocol ProtocolProofs CmdsBridge.
+From GSGen Require Import CmdsGen.
 Open Scope N_scope.
 
 (* a report produced under a fault is the fault-free report *)
@@ -24,3 +25,9 @@ Theorem C10_fault_fails : forall ks answers render ft,
   run_with ks answers render (Some ft) = Failure.
 Proof. exact armed_fault_fails. Qed.
 Print Assumptions C10_fault_fails.
+
+(* tie T: the invocation kinds whose answers run_with consumes are exactly the command lines in the Go sources
+   (gen/CmdsGen.v, regenerated on every run) *)
+Theorem C10_commands_are_the_protocol : covers = true.
+Proof. exact commands_are_the_protocol. Qed.
+Print Assumptions C10_commands_are_the_protocol.
